@@ -153,7 +153,7 @@ class DocGen:
                     if any(l.lstrip().startswith(fmt_name(nm) + " ") for l in lines):
                         continue
                 sub = self.members(depth + 1, ind + 2, NAMES, ["srv", "opt"] if cfg.get("nested_attrpath") else [], in_let=False)
-                rec = "rec " if cfg["rec"] and rng.random() < 0.2 else ""
+                rec = "rec " if cfg["rec"] and rng.random() < 0.35 else ""
                 lines.extend(pre)
                 if not sub:
                     lines.append(pad + "%s = %s{ };%s" % (fmt_name(nm), rec, eol))
